@@ -175,6 +175,11 @@ func (s *Scope) buildService(cu *CodeUtils, v *parser.Service) error {
 	}
 	s.services = append(s.services, svc)
 
+	if !cu.Features().NoProcessor {
+		// method of the generated client, next to one method per function
+		svc.scope.MustReserve("Client_", _p("Client_"))
+	}
+
 	// function names
 	for _, f := range v.Functions {
 		fn := s.identify(cu, f.Name)
@@ -236,7 +241,7 @@ func (s *Scope) buildFunction(cu *CodeUtils, f *Function, v *parser.Function) {
 
 	for _, a := range v.Arguments {
 		name := common.LowerFirstRune(s.identify(cu, a.Name))
-		if isKeywords[name] {
+		if isKeywords[name] || name == "nil" { // generated method bodies return nil
 			name = "_" + name
 		}
 		ns.Add(name, a.Name)
@@ -321,9 +326,18 @@ func (s *Scope) buildStructLike(cu *CodeUtils, v *parser.StructLike, usedName ..
 
 	// built-in methods
 	funcs := []string{"Read", "Write", "String"}
+	if cu.Template() != "raw_struct" {
+		funcs = append(funcs, "InitDefault")
+	}
 	if !strings.HasPrefix(v.Name, prefix) {
 		if v.Category == "union" {
-			funcs = append(funcs, "CountSetFields")
+			funcs = append(funcs, "CountSetFields", "CountSetFields"+sn)
+		}
+		if cu.Features().WithReflection {
+			funcs = append(funcs, "GetDescriptor", "GetTypeDescriptor")
+		}
+		if cu.Features().WithFieldMask {
+			funcs = append(funcs, "Get_FieldMask", "Set_FieldMask", "Pass_FieldMask")
 		}
 		if v.Category == "exception" {
 			funcs = append(funcs, "Error")
